@@ -221,10 +221,13 @@ def unit_validate(cmode, amode):
             c = ArrData((m,), fresh_sel("cand", "i"), "i")
             t, u = z3.Ints("d_t d_u")
             st.assume(z3.ForAll([t, u], z3.Implies(z3.And(0 <= t, t < u, u < m), to_int(c.sel(t)) != to_int(c.sel(u)))))     # distinct indices
+            st.assume(z3.ForAll([t], z3.Implies(z3.And(0 <= t, t < m), z3.And(0 <= to_int(c.sel(t)), to_int(c.sel(t)) < n))))   # of samples
             cand = st.alloc(c)
             ctxh["cand"] = c
         if amode == "idx":
             a_ = ArrData((k,), fresh_sel("annot", "i"), "i")
+            tv = z3.Int("va_t")
+            st.assume(z3.ForAll([tv], z3.Implies(z3.And(0 <= tv, tv < k), z3.And(0 <= to_int(a_.sel(tv)), to_int(a_.sel(tv)) < na))))   # valid annotator indices
             ann = st.alloc(a_)
             ctxh["ann"] = a_
         elif amode == "matrix":
@@ -234,6 +237,13 @@ def unit_validate(cmode, amode):
             ctxh["annm"] = a_
         ctxh.update(n=n, na=na, bs=bs, m=m, k=k, y=yd, ml=ml)
         ctxh["args"] = [selfo, X, st.alloc(yd), cand, ann, bs, True, True]
+
+        def conc(ev):
+            from pyvc import cex
+            return {"family": "multi_validate", "sig": "counter-model", "cmode": cmode, "amode": amode, "y": cex.arr(ev, yd),
+                    "missing": cex.missing_flags(ev, yd, MISSING, ml), "bs": cex.ival(ev, bs),
+                    "cand": None if cand is None else cex.arr(ev, st.get(cand)), "ann": None if ann is None else cex.arr(ev, st.get(ann))}
+        E.default_concretize = conc
         return ctxh
 
     def post(E, ctx, outs):
